@@ -35,9 +35,13 @@ class Gen:
                 parts.append("<b>" + self.inline(anc + ["Strong"], depth + 2) + "</b>")
             elif k < 0.78:
                 parts.append("<i>" + self.inline(anc + ["Emphasized"], depth + 2) + "</i>")
-            elif k < 0.86:
+            elif k < 0.82:
                 t = f"Target{self.n}"
                 parts.append(f"[[{t}|" + self.word(anc + [f"ArticleLink:{t}"]) + "]]")
+            elif k < 0.86:
+                # bare link: the visible text is the target itself
+                t = f"w{self.n + 1}"
+                parts.append("[[" + self.word(anc + [f"ArticleLink:{t}"]) + "]]")
             elif k < 0.92:
                 parts.append("[http://example.org/" + str(self.n) + " " + self.word(anc + ["NamedURL"]) + "]")
             else:
@@ -169,6 +173,12 @@ def tree_words(tree):
         return None
 
     def walk(n, anc):
+        if n.__class__.__name__ == "ArticleLink" and not n.children:
+            # a bare link shows its target
+            for w in (n.target or "").split():
+                if w[:1] in "wW" and w[1:].isdigit():
+                    out.append(("w" + w[1:], tuple(anc + [f"ArticleLink:{n.target}"])))
+            return
         if n.__class__.__name__ == "Text":
             for w in (n.caption or "").split():
                 if w.startswith("w") and w[1:].isdigit():
